@@ -113,6 +113,15 @@ pub fn run(ctx: &mut Ctx) {
                 }
             }
         }
+        if k % 97 == 5 {
+            // input and output counts on different sides of a compact-size boundary
+            let (ni, no) = *gen::pick(&mut ctx.rng, &[(1usize, 253usize), (253, 1), (252, 253), (253, 252), (0, 253), (254, 2)]);
+            let proto_in = gen::txin(&mut ctx.rng, &TxDials { wit_mask: 0, ..TxDials::default() }, false);
+            let proto_out = gen::txout(&mut ctx.rng, &TxDials { wit_mask: 0, ..TxDials::default() });
+            t.input = vec![proto_in; ni];
+            t.output = vec![proto_out; no];
+            ctx.count("transactions-with-counts-across-the-compact-size-boundary");
+        }
         ctx.shape(("tx", gen::tx_shape(&t)));
         if k < 30 {
             ctx.sample("tx", json!({"hex": hex_short(&serialize(&t)), "size": t.size(), "weight": t.weight(), "discount_weight": t.discount_weight()}));
